@@ -744,6 +744,14 @@ func c04(r *h.Result, rng *h.Rng, tier string, replay string) error {
 		return err
 	}
 	lap("pipeline")
+	nRepeat := 24
+	if tier != "quick" {
+		nRepeat = 240
+	}
+	if err := c04RepeatStream(r, rng.Fork(), nRepeat, nil); err != nil {
+		return err
+	}
+	lap("repeat")
 	if err := c04Utf8Stream(r, rng.Fork(), nUtf8, ""); err != nil {
 		return err
 	}
@@ -804,6 +812,14 @@ func c04Replay(r *h.Result, path string) error {
 			return err
 		}
 		return c04PipeStream(r, h.NewRng(1), 0, &c)
+	case "repeat":
+		var c struct {
+			Case c04RepeatCase `json:"case"`
+		}
+		if err := json.Unmarshal(f.Replay, &c); err != nil {
+			return err
+		}
+		return c04RepeatStream(r, h.NewRng(1), 0, &c.Case)
 	case "utf8":
 		var c struct {
 			B string `json:"bytes_hex"`
